@@ -92,6 +92,16 @@ def default_inst(kind: str, variant: int = 0, rng: np.random.Generator | None = 
             g = np.concatenate([[0.0], np.geomspace(1e-4, rng.uniform(0.5, 5), n - 1)])
         return g + (rng.uniform(0, 10) if rng.random() < 0.3 else 0.0)
 
+    # the dtype of the caller's time arrays is part of the input space (integer day counts, float32 series)
+    dt_kind = rng.random()
+    if dt_kind < 0.25:
+        def grid(n):  # noqa: F811
+            return np.concatenate([[0], np.cumsum(rng.integers(1, 4, n - 1))]).astype(np.int64) + int(rng.integers(0, 3))
+    elif dt_kind < 0.4:
+        _g = grid
+
+        def grid(n):  # noqa: F811
+            return _g(n).astype(np.float32)
     pi = float(rng.choice([5000.0, 8000.0, 10000.0]))
     pf = float(rng.uniform(200, 0.9 * pi))
     hi = rng.uniform(pf, 0.95 * pi)
